@@ -400,6 +400,9 @@ func TestVerifC11MetaCorruption(t *testing.T) {
 			pos = rapid.IntRange(1, len(c.Stream)-1).Draw(rt, "spliceAt")
 			at := rapid.IntRange(0, len(other.Stream)-1).Draw(rt, "spliceFrom")
 			bad = append(append([]byte(nil), c.Stream[:pos]...), other.Stream[at:]...)
+			if bytes.Equal(bad, other.Stream) {
+				rt.Skip("splice reproduced the other valid stream")
+			}
 		case "semantic":
 			var m kit.Mutation
 			bad, m = kit.Mutate(rt, c.Stream[:len(c.Stream)-4])
